@@ -157,6 +157,9 @@ def mc_configs(tier, slots):
             cfg("weak memory: 2 senders x 2, 1 receiver x 3", 1500, Senders={1, 2}, Receivers={3},
                 Sends=2, Recvs=3),
             # the next two do not finish (> 60 M distinct states in 40 min): random simulation
+            # SLOTS+1 senders: the state with both queue words 0 (every index in flight) is reachable
+            cfg("SIM all indices in flight: SLOTS+1 senders x 1", 300,
+                Senders=set(range(1, slots + 2)), Receivers=set(), Sends=1, Recvs=1, StaleFail=False),
             cfg("SIM weak memory MPMC: 2 senders x 2, 2 receivers x 2, pre-filled 2", 480,
                 Senders={1, 2}, Receivers={3, 4}, Sends=2, Recvs=2, Prefill=2),
             cfg("SIM weak memory: 3 senders x 1, 1 receiver x 3, nested send on the receiver, "
@@ -200,6 +203,12 @@ def scenarios(tier):
     # a send nested in the first of 7 receives on a full channel: what it leaves behind is met by the
     # later receives (a slot named by `full` whose cell is empty panics only when its turn comes)
     q.append(sc("r1x7_nested_full", 0, 0, 1, 7, 5, ["--nested", 1, "--preempt", 0, "--post-points"]))
+    # all five indices in flight: five operations parked between their two queue operations (each
+    # holds an index), one more operation runs alone, then the holders finish (both orders)
+    q.append(sc("hold_s6", 6, 1, 0, 0, 0, ["--mode", "hold"]))
+    q.append(sc("hold_s3_r3_pre3_sender_runs", 3, 1, 3, 1, 3, ["--mode", "hold", "--runner", 0]))
+    q.append(sc("hold_s2_r4_pre3_receiver_runs", 2, 1, 4, 1, 3, ["--mode", "hold"]))
+    q.append(sc("hold_s1_r5_pre5_sender_runs", 1, 1, 5, 1, 5, ["--mode", "hold", "--runner", 0]))
     # generated programs (lib/genprog.py)
     import genprog
     for seed in range(40 if tier == "thorough" else 6):
